@@ -164,6 +164,7 @@ def run(ctx):
     strict_wrapper_pass(ctx)
     registered_symbolic_options_pass(ctx)
     chained_operators_pass(ctx)
+    named_symbolic_pass(ctx)
     ctx.assumptions = ['floats only where kingdon itself introduces them (sqrt, outer series): compared to 1e-9',
                        'codegen_symbolcls=sympy.Symbol is slow; dense composite operators are skipped for it in d >= 3']
 
@@ -266,11 +267,13 @@ def registered_symbolic_options_pass(ctx):
     def twice(x, y): return (x / y) / y
     def product_over_square(x, y): return (x * y) / (y * y)
     def neg_power(x, y): return x * y ** -2
-    funcs = [quotient, times_inverse, twice, product_over_square, neg_power]
+    def one_minus_quotient(x, y): return 1 - x / y
+    def two_minus_inverse(x, y): return (2 - y.inv()) * x
+    funcs = [quotient, times_inverse, twice, product_over_square, neg_power, one_minus_quotient, two_minus_inverse]
     for sig in ([1, 1, 1], [1, -1]):
         d = len(sig)
         variants = [('default', {}), ('cse=False', {'cse': False}), ('symcls=sympy', {'codegen_symbolcls': sympy.Symbol})]
-        divisors = [[0], [2 ** d - 1], [1], [2]]
+        divisors = [[0], [2 ** d - 1], [1], [2], [1, 2]]
         for f in funcs:
             for ky in divisors:
                 kx = rng.choice([[1, 2], [0, 3], [1, 2, 2 ** d - 1]])
@@ -333,6 +336,43 @@ def chained_operators_pass(ctx):
                     if not close(got[1], base[1]):
                         ctx.violation('option-differs', case, str(base[1])[:200], str(got[1])[:200], key=f'differs:chain:{optkey(opts)}')
                         break
+
+
+def named_symbolic_pass(ctx):
+    """named (symbolic) multivectors made through every entry point (alg.multivector(name=..), alg.vector(name=..),
+    MultiVector(alg, name=..)) under each codegen symbol class (default, sympy.Symbol, kingdon's RationalPolynomial forced):
+    the coefficients a user gets are the same kind of object, results evaluate with mv(**values) to the same numbers, and the
+    square-root operators work alike"""
+    import sympy
+    from kingdon import MultiVector
+    from kingdon.polynomial import RationalPolynomial
+    for sig in ([1, 1, 1], [1, 1, -1]):
+        base_alg = make_algebra(sig)
+        for optname, kw in (('symcls=sympy', {'codegen_symbolcls': sympy.Symbol}), ('symcls=RationalPolynomial', {'codegen_symbolcls': RationalPolynomial.fromname}),
+                            ('symcls=RationalPolynomial,cse=False', {'codegen_symbolcls': RationalPolynomial.fromname, 'cse': False})):
+            alg = make_algebra(sig, **kw)
+            makers = {'alg.multivector(name, grades)': lambda a: a.multivector(name='x', grades=(1,)), 'alg.vector(name)': lambda a: a.vector(name='x'),
+                      'MultiVector(alg, name, grades)': lambda a: MultiVector(a, name='x', grades=(1,))}
+            for mname, mk in makers.items():
+                def outcome(a):
+                    x = mk(a)
+                    kinds = sorted({type(v).__module__.split('.')[0] for v in x.values()})
+                    r = x * x + x
+                    vals = {str(sy): 2.0 + i for i, sy in enumerate(sorted(r.free_symbols, key=str))}
+                    called = r(**vals)
+                    ev = {int(k): (float(v) if not hasattr(v, 'free_symbols') or not v.free_symbols else 'unevaluated') for k, v in zip(called.keys(), called.values())}
+                    n = x.norm()
+                    return kinds, ev, 'norm ok'
+                def safe(a):
+                    try:
+                        return outcome(a)
+                    except Exception as ex:
+                        return 'raises ' + type(ex).__name__
+                exp, got = safe(base_alg), safe(alg)
+                case = {'sig': sig, 'options': optname, 'constructor': mname}
+                ctx.case(case, tag='opts:named-symbolic')
+                if exp != got:
+                    ctx.violation('option-differs', case, str(exp)[:250], str(got)[:250], key=f'differs:named-symbolic:{optname}')
 
 
 def blades_pass(ctx):
